@@ -9,7 +9,33 @@ NOTE_COMMON = ("Trusted: Lean 4.33 kernel + Mathlib v4.33 (axioms propext, Class
                "the translators harness/translate*.py (Python ast -> Lean), the correspondence harness/driver I/O. Modelled not verified: IEEE-754 rounding, jnp.fft "
                "(as DFT sums), JAX tracing/jit/vmap/AD, jax.random. Tiers: quick = translate + lake build + axiom audit + correspondence + a fixed small set of "
                "property-level probes (the full failing-input search only after a break); thorough = the same with larger sweeps, leanchecker on "
-               "the compiled property modules, and the full property-level search on every run.")
+               "the compiled property modules, and the full property-level search on every run. HISTORY PASS (every run, both tiers): the fixed "
+               "probe set is run once more in a fresh child process after a seeded 'previous life' of that process (harness/history.py: the public API "
+               "used with non-default indexing, contour parameters, domain extents, resolutions, orders and wrappers of wrappers on the same grids), "
+               "so hidden state (module-level memos keyed on too little, in-place updates of cached arrays) is exercised; a failure found there is "
+               "replayed with the same previous life in front of the probe.")
+
+# additions of the third build session, appended to the claim texts
+ADDENDA = {
+    "C02": " GLUE (Properties/C02_base.lean, Generated/BaseStepperGen.lean regenerated from exponax/_base_stepper.py on every run by "
+           "harness/translate_base.py): a stepper constructed with order = p <= 4 evaluates exactly the ETDRK-p update assembled from its own "
+           "linear operator, its own nonlinear function and the USER's dt, num_circle_points, circle_radius (order dispatch bound through each "
+           "ETDRK constructor's real signature, defaults included); order 0 is the entrywise propagation by exp(dt*lambda) whatever the nonlinear "
+           "function and contour are; every other order is refused, in agreement with the regenerated constructor guard; BaseStepper.step is that "
+           "update between the model transforms of the configured (D, N). Correspondence: the translator's reading against the live objects "
+           "(integrator class per order 0..6, copied attributes, dx, stored ETDRK attributes = those of a directly built integrator with the "
+           "user's (dt, M, r)).",
+    "C13": " The assembly `Interface.baseStep` that all step-level equivalences are stated about IS what the regenerated "
+           "BaseStepper.__init__ + step_fourier evaluate (Properties/C13_base.lean); both builders receive the derivative operator of the "
+           "user's (D, L, N).",
+    "C16": " mean_metric (regenerated from metrics/_utils.py): the arithmetic mean over the batch of the per-member metric, the metric itself "
+           "for one member or equal members (Properties/C16_mean.lean); probe on the implementation with six metrics and keyword arguments.",
+    "C18": " build_ic_set (regenerated from _utils.py): a deterministic function of the key with num_samples members, member i = the generator "
+           "at the second half of the split of the key carried after i samples, prefix-stable in num_samples (Properties/C18_icset.lean); "
+           "bit-exact probe against the key-threading loop on the implementation.",
+    "C20": " BaseStepper.__call__ as a whole (regenerated: guard, then step): every shape but (C,)+(N,)*D is refused, the configured shape is "
+           "stepped; unsupported orders are refused by the constructor (Properties/C20_base.lean).",
+}
 
 CLAIMS = {
     "C02": {
@@ -320,7 +346,7 @@ def main():
                 "evidence_file": f"evidence/{pid}.json",
                 "replay_cmd_template": "/venv/bin/python harness/replay.py {path}",
                 "engine": "lean-proof+correspondence",
-                "level_claimed": {"category": "proof", "text": c["text"], "design_ref": c["design_ref"]},
+                "level_claimed": {"category": "proof", "text": c["text"] + ADDENDA.get(pid, ""), "design_ref": c["design_ref"]},
                 "level_note": c.get("note", NOTE_COMMON),
                 "technique": c["technique"],
             })
